@@ -366,6 +366,75 @@ def shifted_fn(a, b, n=3):
                        "w": ((), float(a - b))}, coords={"x": x})
 
 
+UNSORTABLE = [1 + 2j, 2 - 1j, 3j, -1 + 0.5j]
+
+
+def unsort_fn(u, n, m=0):
+    return 1000.0 * UNSORTABLE.index(u) + 10 * n + m
+
+
+def unsortable_stream(c, n):
+    """Case sets in which ONE argument takes values Python cannot order (complex numbers): the coordinate of every
+    other case argument is still the sorted union of its values, and selecting any case by label gives the
+    function's value there (oracle only: the model's coordinates are sorted lists of ranks)."""
+    import xyzpy
+    for k in range(n):
+        rng = c.rng
+        nvals = rng.sample(range(0, 40), rng.randint(2, 4)) if rng.random() < 0.7 else \
+            [x / 4 for x in rng.sample(range(-9, 60), rng.randint(2, 4))]
+        mvals = rng.sample(range(-5, 30), rng.randint(1, 3))
+        three = rng.random() < 0.4
+        cases = []
+        for _ in range(rng.randint(2, 6)):
+            cs = (rng.choice(UNSORTABLE), rng.choice(nvals)) + ((rng.choice(mvals),) if three else ())
+            if cs not in cases:
+                cases.append(cs)
+        names = ("u", "n", "m") if three else ("u", "n")
+        order = list(range(len(names)))
+        rng.shuffle(order)                      # the unsortable argument first, last or in the middle
+        fa = tuple(names[i] for i in order)
+        cs_sp = [tuple(cs[i] for i in order) for cs in cases]
+        api = rng.choice(["case_runner_to_ds", "combo_runner_to_ds", "Runner.run_cases", "label.run_cases"])
+        shuffle = rng.choice([False, False, True, 5])
+        rep = {"stream": "unsortable-case-argument", "api": api, "fn_args": list(fa),
+               "cases": [[str(v) for v in cs] for cs in cs_sp], "shuffle": shuffle}
+        try:
+            if api == "case_runner_to_ds":
+                ds = xyzpy.case_runner_to_ds(unsort_fn, fa, cs_sp, "out", shuffle=shuffle, verbosity=0)
+            elif api == "combo_runner_to_ds":
+                ds = xyzpy.combo_runner_to_ds(unsort_fn, None, "out", cases=[dict(zip(fa, cs)) for cs in cs_sp],
+                                              shuffle=shuffle, verbosity=0)
+            elif api == "Runner.run_cases":
+                ds = xyzpy.Runner(unsort_fn, "out", fn_args=fa).run_cases(cs_sp, shuffle=shuffle, verbosity=0)
+            else:
+                ds = xyzpy.label("out", fn_args=fa)(unsort_fn).run_cases(cs_sp, shuffle=shuffle, verbosity=0)
+        except Exception as e:  # noqa
+            c.violation("raised", f"{type(e).__name__}: {str(e)[:160]}", rep)
+            continue
+        c.case(json.dumps(rep, sort_keys=True), nontrivial=True, sample=rep if k % 10 == 0 else None)
+        c.count("api", "unsortable/" + api)
+        bad = None
+        for j, nm in enumerate(names):
+            if nm == "u":
+                if sorted(map(str, ds["u"].values.tolist())) != sorted({str(cs[0]) for cs in cases}):
+                    bad = f"coordinate u holds {ds['u'].values.tolist()}"
+                continue
+            want = sorted({cs[j] for cs in cases})
+            got = [v.item() if hasattr(v, "item") else v for v in ds[nm].values]
+            if got != want:
+                bad = f"coordinate {nm} holds {got}, the sorted union of its case values is {want}"
+        if bad is None:
+            asked = {cs: unsort_fn(*cs) for cs in cases}
+            for pt in itertools.product(*[ds[nm].values.tolist() for nm in names]):
+                v = float(ds["out"].sel(**dict(zip(names, pt))).values)
+                if pt in asked and v != asked[pt]:
+                    bad = f"case {pt} holds {v}, the function gives {asked[pt]}"
+                elif pt not in asked and not np.isnan(v):
+                    bad = f"point {pt} was not a case but holds {v}"
+        if bad:
+            c.violation("dataset-differs", "unsortable case argument: " + bad, rep)
+
+
 def shifted_coord_stream(c, n):
     """Functions that return a Dataset / DataArray whose INTERNAL coordinate depends on a swept argument (same
     length for every setting): the results are outer-aligned, so selecting a setting and one of ITS x labels
@@ -555,6 +624,7 @@ def run(tier, seed):
                     pairs.append((model, obs["canon"]))
                     metas.append(desc)
         shifted_coord_stream(c, 12 if tier == "quick" and not c.broken else 80)
+        unsortable_stream(c, 20 if tier == "quick" and not c.broken else 150)
         bad, _ = core.safe_run_cases(c, "Prelude Grid Perm Runner RunnerInst Flow Label LabelInst", pairs, chunk=120)
         for i in bad:
             c.obligation_broken("correspondence Model/Label.v vs results_to_ds / results_to_df",
